@@ -151,11 +151,27 @@ theorem ctx_assigns (c : Ctx) (cs : CtxSpec) (raw : Val) (c1 : Ctx)
   | _ => simp only [if_true]; exact get_set _ _ _
 
 /-- A literal source (`{% ctx x = "lit" %}` / `= 10`) stores the literal bytes. -/
-theorem ctx_static_assigns (c : Ctx) (cs : CtxSpec) (hs : cs.srcStatic = true) :
+theorem ctx_static_assigns (c : Ctx) (cs : CtxSpec) (hs : cs.srcStatic = true) (hne : (cs.ok == cs.var) = false) :
     getVar (ctxNode c cs).1.vars cs.var = some (.bytes cs.src) := by
   unfold ctxNode
   simp only [hs, if_true]
-  exact get_set _ _ _
+  split
+  · exact get_set _ _ _
+  · show getVar (setVar _ cs.ok _) cs.var = _
+    rw [get_set_other _ _ _ _ hne]
+    exact get_set _ _ _
+
+/-- … and its ok-flag is true exactly when the literal is not empty (repair: the fast path for literal sources used
+    to skip the flag). -/
+theorem ok_static (c : Ctx) (cs : CtxSpec) (hs : cs.srcStatic = true) (hok : cs.ok ≠ []) :
+    getVar (ctxNode c cs).1.vars cs.ok = some (.ins (.bool (!cs.src.isEmpty)) .static) := by
+  unfold ctxNode
+  have hokE : cs.ok.isEmpty = false := by
+    cases h : cs.ok with
+    | nil => exact absurd h hok
+    | cons x xs => simp
+  simp only [hs, if_true, hokE, Bool.false_eq_true, if_false]
+  exact setStatic_reads _ _ _
 
 /-! Non-vacuity. -/
 example : getVar (setVar (setVar [] (lit "a") (.bytes (lit "x"))) (lit "a") (.cntr 5)) (lit "a") = some (.cntr 5) := by rfl
